@@ -1,7 +1,10 @@
 package engine
 
 import (
+	"bytes"
 	"crypto/sha256"
+	"encoding/base64"
+	"encoding/gob"
 	"encoding/hex"
 	"encoding/json"
 	"flag"
@@ -13,6 +16,7 @@ import (
 	"testing"
 	"time"
 
+	"verifharness/lang"
 	"verifharness/sim"
 
 	"pgregory.net/rapid"
@@ -227,6 +231,37 @@ type replayFile struct {
 	Note      string      `json:"note,omitempty"`
 	Input     any         `json:"input,omitempty"`
 	Tier      string      `json:"tier,omitempty"` // the draw list is interpreted under this tier's generator settings
+	// Case is the complete simulated case (program AST, twin, run configurations) in a
+	// generator-independent encoding (base64 of encoding/gob): the replay does not go through the
+	// generator again, so it survives later changes to it. Draws are kept for the record.
+	Case string `json:"case_gob,omitempty"`
+}
+
+func init() {
+	for _, t := range []any{&lang.Send{}, &lang.Recv{}, &lang.Sel{}, &lang.Case{}, &lang.New{}, &lang.Call{}, &lang.Close{}, &lang.Wait{}, &lang.Fwd{},
+		&lang.Split{}, &lang.Drop{}, &lang.Print{}, &lang.Cast{}, &lang.Shift{}} {
+		gob.Register(t)
+	}
+}
+
+func encodeCase(c *SimCase) string {
+	var buf bytes.Buffer
+	if err := gob.NewEncoder(&buf).Encode(c); err != nil {
+		return ""
+	}
+	return base64.StdEncoding.EncodeToString(buf.Bytes())
+}
+
+func decodeCase(s string) *SimCase {
+	raw, err := base64.StdEncoding.DecodeString(s)
+	if err != nil {
+		return nil
+	}
+	var c SimCase
+	if err := gob.NewDecoder(bytes.NewReader(raw)).Decode(&c); err != nil {
+		return nil
+	}
+	return &c
 }
 
 func hashStr(s string) string {
@@ -426,7 +461,19 @@ func (w *Worker) SimProperty(prop string, draw func(Chooser, string) *SimCase) f
 				if !w.failing {
 					w.Out.Known[id]++
 					if _, ok := w.Out.KnownExample[id]; !ok {
-						w.Out.KnownExample[id] = map[string]any{"program": c.Src, "msg": v.Msg, "mode": v.Mode}
+						ex := map[string]any{"program": c.Src, "msg": v.Msg, "mode": v.Mode}
+						// a replay file for the known finding too (smallest is not attempted)
+						rf := &replayFile{Property: prop, Engine: "sim", Draws: append([]int{}, rec.Draws...), Program: c.Src, Twin: c.TwinSrc, Fault: c.Fault, Violation: *v, Tier: os.Getenv("VERIF_TIER"), Case: encodeCase(c), Note: "known finding " + id}
+						for i, r := range st.Runs {
+							rf.Runs = append(rf.Runs, replayRun{Config: c.Runs[i], Schedule: r.Schedule, LogHash: r.LogHash})
+						}
+						dir := filepath.Join(w.OutDir, "known")
+						os.MkdirAll(dir, 0o755)
+						path := filepath.Join(dir, fmt.Sprintf("%s-%s-w%s-c%s.json", id, prop, os.Getenv("VERIF_WORKER"), os.Getenv("VERIF_CHUNK")))
+						if b, err := json.MarshalIndent(rf, "", " "); err == nil && os.WriteFile(path, b, 0o644) == nil {
+							ex["replay"] = path
+						}
+						w.Out.KnownExample[id] = ex
 					}
 				}
 				continue
@@ -448,7 +495,7 @@ func (w *Worker) SimProperty(prop string, draw func(Chooser, string) *SimCase) f
 		}
 		sz := caseSize(c)
 		if w.best == nil || sz <= w.bestSz {
-			rf := &replayFile{Property: prop, Engine: "sim", Draws: append([]int{}, rec.Draws...), Program: c.Src, Twin: c.TwinSrc, Fault: c.Fault, Violation: *fail, Tier: os.Getenv("VERIF_TIER")}
+			rf := &replayFile{Property: prop, Engine: "sim", Draws: append([]int{}, rec.Draws...), Program: c.Src, Twin: c.TwinSrc, Fault: c.Fault, Violation: *fail, Tier: os.Getenv("VERIF_TIER"), Case: encodeCase(c)}
 			for i, r := range st.Runs {
 				rf.Runs = append(rf.Runs, replayRun{Config: c.Runs[i], Schedule: r.Schedule, LogHash: r.LogHash})
 			}
@@ -599,12 +646,18 @@ func (w *Worker) replay(path string) {
 	}
 	os.Setenv("VERIF_TIER", rf.Tier)
 	for pass := 0; pass < 2; pass++ {
-		rc := &replayChooser{Draws: rf.Draws}
-		draw := DrawSimCase
-		if d, ok := simDrawers[rf.Property]; ok {
-			draw = d
+		var c *SimCase
+		if rf.Case != "" {
+			c = decodeCase(rf.Case)
 		}
-		c := draw(rc, rf.Property)
+		if c == nil {
+			rc := &replayChooser{Draws: rf.Draws}
+			draw := DrawSimCase
+			if d, ok := simDrawers[rf.Property]; ok {
+				draw = d
+			}
+			c = draw(rc, rf.Property)
+		}
 		if rf.Program != "" && c.Src != rf.Program {
 			w.Out.Trouble = append(w.Out.Trouble, "replay diverged: the draw list no longer produces the recorded program (generator changed?)")
 			return
